@@ -148,6 +148,7 @@ pub fn sim_spawn(program: &str, args: &[String], fds: Vec<(brush_core::ShellFd, 
             }
         }
         let raw = behave(&name, &args, stdin, stdout);
+        world::proc_exited(args.last().cloned().unwrap_or_default(), raw);
         // the process is gone: every descriptor it inherited is closed, then its status
         // becomes available, then the participant ends
         drop(others);
